@@ -9,6 +9,8 @@ package engsim
 import (
 	"bytes"
 	"fmt"
+	"io"
+	"log"
 	"os"
 	"path"
 	"sync/atomic"
@@ -28,6 +30,11 @@ func init() {
 		panic("engsim: engine.KVType/HashType changed")
 	}
 	engine.SetLogger(0, nil)
+	if os.Getenv("VERIF_ENGSIM_LOG") == "" {
+		// pebble's event listener logs every flush/compaction through the
+		// standard logger; Go runtime crash output does not go through it
+		log.SetOutput(io.Discard)
+	}
 }
 
 const prop = "C20"
@@ -39,20 +46,24 @@ const (
 	keyPebbleSeekLT = "pebble-reverse-closed-max-skipped"
 	keyBtreeSeekLT  = "membtree-reverse-closed-max-skipped"
 	keyMemFallback  = "mem-reverse-fallback-first-key"
+	keyRadixNul     = "memradix-nul-extended-key-seek"
+	keyRocksDFIR    = "rocksdb-deletefilesinrange-includes-limit"
 )
 
 type config struct {
-	Mode        string   `json:"mode"`
-	Engines     []string `json:"engines"`
-	Prefixes    []string `json:"prefixes"`
-	Keys        int      `json:"keys"`
-	CounterKeys int      `json:"counter_keys"`
-	Ops         int      `json:"ops"`
-	WriteBuffer int      `json:"write_buffer"`
-	BlockSize   int      `json:"block_size"`
-	TargetFile  int      `json:"target_file"`
-	LevelBase   int      `json:"level_base"`
-	Weights     []int    `json:"op_weights"`
+	Mode        string         `json:"mode"`
+	Scope       []string       `json:"scope"`
+	Engines     []string       `json:"engines"`
+	Prefixes    []string       `json:"prefixes"`
+	Keys        int            `json:"keys"`
+	CounterKeys int            `json:"counter_keys"`
+	Ops         int            `json:"ops"`
+	WriteBuffer int            `json:"write_buffer"`
+	BlockSize   int            `json:"block_size"`
+	TargetFile  int            `json:"target_file"`
+	LevelBase   int            `json:"level_base"`
+	Weights     []int          `json:"-"`
+	OpWeights   map[string]int `json:"op_weights"`
 }
 
 // operation kinds (index into config.Weights)
@@ -104,6 +115,7 @@ type iterState struct {
 
 type heldIter struct {
 	id     int
+	born   int // s.commits when the iterator was created
 	spec   iterSpec
 	exp    []kv
 	states []*iterState
@@ -124,6 +136,11 @@ type sim struct {
 	dir         string
 	engs        []*eng
 	adversarial bool
+	emptyKeyRun bool
+	withRadix   bool
+	alphabet    []byte
+	prefixSet   [][]byte
+	nextByte    byte // appended to a key to form the bound just above it
 	withRocks   bool
 	prefixes    [][]byte
 	pool        [][]byte
@@ -147,7 +164,6 @@ type sim struct {
 	commits    int
 	bigCommits int
 	envEvents  int
-	heldAcross int
 }
 
 func (s *sim) seq() int { s.nseq++; return s.nseq }
@@ -177,7 +193,19 @@ var prefixChoices = [][]byte{
 	{0x15, 0x00, 0x02},
 }
 
-var alphabet = []byte{0x61, 0x00, 0xff, 0x01, 0xfe, 0x62}
+var alphabetFull = []byte{0x61, 0x00, 0xff, 0x01, 0xfe, 0x62}
+var alphabetNoNul = []byte{0x61, 0x01, 0xff, 0x02, 0xfe, 0x62}
+
+// in runs with mem(radix) no key starts with the 0x00 byte (see setup)
+var prefixChoicesRadix = [][]byte{
+	{0x15, 0x00, 0x03},
+	{0x15, 0x00, 0x04},
+	{0x16, 0x00, 0x03},
+	{0x01, 0x01, 0x01},
+	{0xff, 0xff, 0xff},
+	{0x15, 0xff, 0xff},
+	{0x15, 0x00, 0x02},
+}
 
 func (s *sim) note(format string, args ...interface{}) {
 	if len(s.sampleOps) < 40 {
@@ -188,22 +216,65 @@ func (s *sim) note(format string, args ...interface{}) {
 func (s *sim) setup() bool {
 	t := s.t
 	quick := s.c.Tier != "thorough"
+	// ---- which engines take part, and on which key shapes (explicit scope) ----
 	s.adversarial = t.Weighted([]int{6, 4}) == 1
 	if !s.adversarial {
 		s.withRocks = !t.Bool(250)
-		s.cf.Mode = "mapping-shaped keys (>=3 bytes); rocksdb takes part, on iterators only for ranges inside one 3-byte prefix"
+		s.cf.Mode = "mapping-shaped keys (every key >= 3 bytes)"
+		if s.withRocks {
+			s.cf.Scope = append(s.cf.Scope, "rocksdb takes part; on iterators only for ranges inside one 3-byte prefix (its prefix extractor keeps an iterator inside the prefix of the start key)")
+		}
 	} else {
-		s.cf.Mode = "adversarial keys (empty, 1-2 bytes, cross-prefix); pebble + mem variants + reference only (rocksdb excluded: sandbox library aborts on keys < 3 bytes)"
+		s.cf.Mode = "adversarial keys (1-2 byte keys, cross-prefix and unbounded ranges)"
+		s.cf.Scope = append(s.cf.Scope, "rocksdb excluded: the sandbox's assert-enabled librocksdb aborts on keys shorter than the 3-byte prefix")
+		// The vendored pebble cannot flush a memtable whose smallest user key
+		// is the empty key (sstable.Writer.addPoint compares against a zero
+		// "largest key so far": "keys must be added in order: #0,DEL, #n,SET";
+		// the flush is retried forever and Compact()/CompactAllRange never
+		// return). The data mapping never stores the empty key (every key
+		// starts with a type byte), so the empty key is stored only in runs
+		// without pebble; it is used as a bound everywhere.
+		s.emptyKeyRun = t.Bool(250)
+		if s.emptyKeyRun {
+			s.cf.Mode = "adversarial keys incl. the EMPTY key as a stored key"
+			s.cf.Scope = append(s.cf.Scope, "pebble excluded: its flush fails forever once the empty key is stored")
+		}
+	}
+	// mem(radix) seeks go wrong as soon as a stored key followed by 0x00 is a
+	// prefix of another stored key or of the seek target (radixdb terminates
+	// index keys with 0x00 and the vendored radix tree's lower-bound seeks
+	// assume that no index key is a prefix of another): known finding
+	// keyRadixNul, demonstrated by a fixed probe (probe.go). It also corrupts
+	// DeleteRange, so exploring it in lock-step is pointless: runs WITH
+	// mem(radix) use keys/bounds that cannot form such a pair (no 0x00 byte
+	// after the 3-byte prefix, no key starting with 0x00), runs WITHOUT it
+	// use 0x00 freely. Same split for two write-batch orders the data mapping
+	// never issues (pendingWriteIn / pendingDeleteOf).
+	s.withRadix = !t.Bool(300)
+	if s.withRadix {
+		s.alphabet, s.prefixSet, s.nextByte = alphabetNoNul, prefixChoicesRadix, 0x01
+		s.cf.Scope = append(s.cf.Scope, "mem(radix) takes part: no 0x00 byte after the 3-byte prefix and no key starting with 0x00; no put-then-covering-DeleteRange and no delete-then-merge inside one batch")
+	} else {
+		s.alphabet, s.prefixSet, s.nextByte = alphabetFull, prefixChoices, 0x00
+		s.cf.Scope = append(s.cf.Scope, "mem(radix) excluded: 0x00 bytes anywhere in keys and bounds, any operation order inside a batch")
 	}
 	withBtree := !t.Bool(350)
 	withSkip := !t.Bool(350)
+	if s.emptyKeyRun && !s.withRadix {
+		// keep at least two engines
+		withBtree, withSkip = true, true
+	}
 	if s.withRocks {
 		s.engs = append(s.engs, &eng{name: "rocksdb", typ: "rocksdb", memType: -1, sub: "rocksdb", holdable: true})
 	}
-	s.engs = append(s.engs, &eng{name: "pebble", typ: "pebble", memType: -1, sub: "pebble", holdable: true,
-		dev: devFlags{strictPrev: true}})
-	s.engs = append(s.engs, &eng{name: "mem-radix", typ: "mem", memType: engine.VerifMemRadix, sub: "mem", holdable: true,
-		dev: devFlags{unbounded: true}})
+	if !s.emptyKeyRun {
+		s.engs = append(s.engs, &eng{name: "pebble", typ: "pebble", memType: -1, sub: "pebble", holdable: true,
+			dev: devFlags{strictPrev: true}})
+	}
+	if s.withRadix {
+		s.engs = append(s.engs, &eng{name: "mem-radix", typ: "mem", memType: engine.VerifMemRadix, sub: "mem", holdable: true,
+			dev: devFlags{unbounded: true}})
+	}
 	if withBtree {
 		s.engs = append(s.engs, &eng{name: "mem-btree", typ: "mem", memType: engine.VerifMemBtree, sub: "mem",
 			dev: devFlags{unbounded: true, strictPrev: true}})
@@ -218,7 +289,7 @@ func (s *sim) setup() bool {
 	// key universe
 	np := t.Range(1, 3)
 	for i := 0; i < np; i++ {
-		p := prefixChoices[t.Choose(len(prefixChoices))]
+		p := s.prefixSet[t.Choose(len(s.prefixSet))]
 		dup := false
 		for _, q := range s.prefixes {
 			if bytes.Equal(p, q) {
@@ -241,9 +312,12 @@ func (s *sim) setup() bool {
 	for i := 0; i < nk; i++ {
 		if s.adversarial && t.Bool(350) {
 			n := t.Range(0, 2)
+			if n == 0 && !s.emptyKeyRun {
+				n = 1
+			}
 			k := []byte{}
 			for j := 0; j < n; j++ {
-				k = append(k, alphabet[t.Choose(len(alphabet))])
+				k = append(k, s.alphabet[t.Choose(len(s.alphabet))])
 			}
 			add(k)
 			continue
@@ -251,7 +325,7 @@ func (s *sim) setup() bool {
 		k := clone(s.prefixes[t.Choose(len(s.prefixes))])
 		n := t.Range(0, 3)
 		for j := 0; j < n; j++ {
-			k = append(k, alphabet[t.Choose(len(alphabet))])
+			k = append(k, s.alphabet[t.Choose(len(s.alphabet))])
 		}
 		add(k)
 	}
@@ -264,10 +338,12 @@ func (s *sim) setup() bool {
 	}
 	s.cf.Keys = len(s.pool)
 	s.cf.CounterKeys = len(s.ctrKeys)
+	// lower bound 0 so that the shrinker can cut a failing run down to the
+	// operations that matter
 	if quick {
-		s.cf.Ops = t.Range(15, 90)
+		s.cf.Ops = t.Range(0, 100)
 	} else {
-		s.cf.Ops = t.Range(30, 400)
+		s.cf.Ops = t.Range(0, 420)
 	}
 	s.cf.WriteBuffer = []int{1 << 20, 256 << 10, 64 << 10}[t.Choose(3)]
 	s.cf.BlockSize = []int{8192, 1024}[t.Choose(2)]
@@ -275,12 +351,14 @@ func (s *sim) setup() bool {
 	s.cf.LevelBase = []int{256 << 20, 256 << 10}[t.Choose(2)]
 	// swarm: per-run weights of the operation kinds
 	s.cf.Weights = make([]int, nOpKinds)
+	s.cf.OpWeights = map[string]int{}
 	for i := 0; i < nOpKinds; i++ {
 		f := []int{1, 0, 2, 4}[t.Choose(4)]
 		if (i == opPut || i == opCommit || i == opGet || i == opIter) && f == 0 {
 			f = 1
 		}
 		s.cf.Weights[i] = baseWeights[i] * f
+		s.cf.OpWeights[opNames[i]] = s.cf.Weights[i]
 	}
 
 	base := os.Getenv("VERIF_SCRATCH")
@@ -304,10 +382,27 @@ func (s *sim) setup() bool {
 		en.e = e
 	}
 	s.m = newModel()
+	defer s.prefill()
 	s.c.Log("CONFIG", "mode=%v engines=%v prefixes=%v keys=%d ctr=%d ops=%d wbuf=%d bs=%d tf=%d lb=%d",
 		s.adversarial, s.cf.Engines, s.cf.Prefixes, len(s.pool), len(s.ctrKeys), s.cf.Ops,
 		s.cf.WriteBuffer, s.cf.BlockSize, s.cf.TargetFile, s.cf.LevelBase)
 	return true
+}
+
+// prefill commits a first batch so that reads and ranges have something to find.
+func (s *sim) prefill() {
+	if s.abort {
+		return
+	}
+	for _, k := range s.pool {
+		if s.t.Bool(600) {
+			s.batchOp(bop{kind: bPut, k: k, v: s.genValue()})
+		}
+	}
+	if s.t.Bool(500) {
+		s.batchOp(bop{kind: bMerge, k: s.ctrKeys[0], v: putLE64(uint64(s.t.Range(1, 9)))})
+	}
+	s.finishBatch(true)
 }
 
 // ---------------------------------------------------------------- keys/values
@@ -373,13 +468,13 @@ func (s *sim) genBound(p []byte, isMax bool) []byte {
 			return edge
 		}
 		k := in[t.Choose(len(in))]
-		switch t.Weighted([]int{6, 2, 1, 1}) {
+		switch t.Weighted([]int{6, 4, 1, 1}) {
 		case 0:
 			return clone(k)
 		case 1:
 			return edge
 		case 2:
-			return cat(k, 0x00)
+			return cat(k, s.nextByte)
 		default:
 			if len(k) > 3 {
 				return clone(k[:len(k)-1])
@@ -396,7 +491,7 @@ func (s *sim) genBound(p []byte, isMax bool) []byte {
 	case 2:
 		return []byte{}
 	case 3:
-		return cat(k, 0x00)
+		return cat(k, s.nextByte)
 	case 4:
 		if len(k) > 0 {
 			return clone(k[:len(k)-1])
@@ -410,6 +505,16 @@ func (s *sim) genBound(p []byte, isMax bool) []byte {
 // genRange draws start <= end, both non-nil (what the data mapping hands to
 // DeleteRange / CompactRange / DeleteFilesInRange).
 func (s *sim) genRange() ([]byte, []byte) {
+	if s.t.Bool(550) {
+		// narrow: one key, or one key and everything it is a prefix of
+		k := s.anyKey()
+		if len(k) > 0 || s.emptyKeyRun {
+			if s.t.Bool(500) {
+				return clone(k), cat(k, s.nextByte)
+			}
+			return clone(k), cat(k, 0xff, 0xff, 0xff, 0xff)
+		}
+	}
 	var p []byte
 	if s.t.Bool(500) {
 		p = s.prefixes[s.t.Choose(len(s.prefixes))]
@@ -421,6 +526,19 @@ func (s *sim) genRange() ([]byte, []byte) {
 	}
 	if b == nil {
 		b = cat(s.anyKey(), 0xff)
+	}
+	if !s.emptyKeyRun {
+		// pebble takes part: no empty user key, not even as the start of a
+		// range tombstone (vendored pebble: DeleteRange("", x) + a point
+		// delete in one batch, after an earlier range tombstone and a reopen,
+		// lets an overwritten value resurface at the next compaction; the
+		// data mapping never passes an empty start key)
+		if len(a) == 0 {
+			a = []byte{0x00}
+		}
+		if len(b) == 0 {
+			b = []byte{0x00}
+		}
 	}
 	if !s.adversarial {
 		// rocksdb may take part in these runs: every key handed to it is >= 3 bytes
@@ -454,7 +572,12 @@ func (s *sim) ensureBatch() {
 			if owned {
 				en.wb = en.e.NewWriteBatch()
 			} else {
-				en.wb = en.e.DefaultWriteBatch()
+				// like rockredis: the default batch is fetched once per
+				// open engine and reused (Clear after every commit)
+				if en.defwb == nil {
+					en.defwb = en.e.DefaultWriteBatch()
+				}
+				en.wb = en.defwb
 			}
 			en.owned = owned
 		})
@@ -573,7 +696,6 @@ func (s *sim) finishBatch(commit bool) {
 			}
 		}
 		if len(s.held) > 0 && len(s.pending) > 0 {
-			s.heldAcross++
 			s.c.Probe("commit-with-open-iterator")
 		}
 	} else {
@@ -978,7 +1100,7 @@ func (s *sim) opIter() {
 	if len(exp) == 0 {
 		s.c.Count("iter.empty", 1)
 	}
-	h := &heldIter{spec: sp, exp: exp}
+	h := &heldIter{spec: sp, exp: exp, born: s.commits}
 	for _, en := range s.engs {
 		if en.name == "rocksdb" && !s.rocksSafeRange(sp) {
 			s.c.Count("iter.skipped-on-rocksdb", 1)
@@ -1039,7 +1161,15 @@ func (s *sim) opIterAdvance(closeIt bool) {
 	}
 	s.c.Log("iter-advance", "id=%d n=%d close=%v", h.id, n, closeIt)
 	for _, st := range h.states {
+		before := st.got
 		s.stepIter(st, h.spec, n)
+		if s.commits > h.born {
+			// elements (or the end) observed through an iterator that is older than a later commit
+			s.c.Count("held-iterator.observations-after-later-commit", int64(st.got-before))
+			if st.ended {
+				s.c.Count("held-iterator.observations-after-later-commit", 1)
+			}
+		}
 	}
 	done := closeIt
 	if !done {
@@ -1221,6 +1351,13 @@ func (s *sim) verifyCkpt(ck *ckpt) {
 		if s.abort || en.dead {
 			break
 		}
+		// rockredis validates a backup with CheckDBEngForRead before using it
+		var cerr error
+		dbDir := path.Join(ck.dirs[i], en.sub)
+		s.do(en, "CheckDBEngForRead", func() { cerr = en.e.CheckDBEngForRead(dbDir) })
+		if cerr != nil {
+			s.c.Violate(prop, "checkpoint", "", "%s: CheckDBEngForRead rejects a checkpoint that Save reported as written: %v", en.name, cerr)
+		}
 		savedCfg := en.cfg
 		e, err := s.openEngine(en, ck.dirs[i], ck.readOnly)
 		en.cfg = savedCfg
@@ -1288,6 +1425,36 @@ func (s *sim) opTableRange() {
 	s.m.apply(ops)
 	s.rangeDel = true
 	s.commits++
+	// Known finding keyRocksDFIR: rocksdb's DeleteFilesInRange drops every
+	// SST file lying inside [Start, Limit] INCLUDING Limit (the C API passes
+	// include_end=true) while the DeleteRange that follows is end-exclusive;
+	// pebble and mem implement DeleteFilesInRange as a no-op. A stored key
+	// equal to Limit is lost (or an older version of it resurfaces) on
+	// rocksdb only. Classified exactly: only the key == Limit may differ;
+	// rocksdb is then re-synchronised so that the run stays meaningful.
+	for _, en := range s.engs {
+		if en.name != "rocksdb" || s.abort {
+			continue
+		}
+		exp := s.expectGet(b)
+		got := s.readVia(en, 0, b)
+		if got.err == nil && (got.present != exp.present || !bytes.Equal(got.v, exp.v)) {
+			s.c.Violate(prop, "delete-files-in-range", keyRocksDFIR,
+				"rocksdb: after DeleteFilesInRange{Start:%s,Limit:%s} + DeleteRange[%s,%s) the key equal to Limit reads %s, reference (and the other engines) %s",
+				hx(a), hx(b), hx(a), hx(b), got, exp)
+			s.c.Log("resync", "rocksdb %s", hx(b))
+			s.do(en, "resync", func() {
+				wb := en.e.NewWriteBatch()
+				if exp.present {
+					wb.Put(clone(b), clone(exp.v))
+				} else {
+					wb.Delete(clone(b))
+				}
+				en.e.Write(wb)
+				wb.Destroy()
+			})
+		}
+	}
 	s.verifyAllKeys("after-table-range")
 }
 
@@ -1316,7 +1483,7 @@ func (s *sim) step() {
 		s.batchOp(bop{kind: bDel, k: s.anyKey()})
 	case opDelRange:
 		a, b := s.genRange()
-		if s.pendingWriteIn(a, b) {
+		if s.withRadix && s.pendingWriteIn(a, b) {
 			// outside the data mapping's usage (see pendingWriteIn): split the batch
 			s.c.Count("avoided.put-then-delrange-in-one-batch", 1)
 			s.finishBatch(true)
@@ -1324,7 +1491,7 @@ func (s *sim) step() {
 		s.batchOp(bop{kind: bDelRange, k: a, v: b})
 	case opMerge:
 		k := s.ctrKeys[t.Choose(len(s.ctrKeys))]
-		if s.pendingDeleteOf(k) {
+		if s.withRadix && s.pendingDeleteOf(k) {
 			s.c.Count("avoided.delete-then-merge-in-one-batch", 1)
 			s.finishBatch(true)
 		}
@@ -1375,6 +1542,9 @@ func (s *sim) finish() {
 				break
 			}
 			s.verifyCkpt(ck)
+		}
+		if s.t.Bool(150) {
+			s.probeRadixNul()
 		}
 	}
 	// teardown: never touch an engine whose call panicked (locks may be held)
